@@ -81,13 +81,13 @@ def run(ctx):
             cname = "generic:V:" + name
         if rng.random() < 0.15:
             wd = gen.recase(rng, wd)
-        check_typing(ctx, {"cls": cname, "word": gen.rot(wd, rng.randrange(len(wd)))})
+        ctx.guard(check_typing, {"cls": cname, "word": gen.rot(wd, rng.randrange(len(wd)))})
     # every kit class
     per = ctx.budget(2, 40)
     for cls in kits:
         for _ in range(per):
             wd, _ = T.kit_instance(rng, cls, runlen=rng.choice([0, 2, 5, 20]))
-            check_typing(ctx, {"cls": asm.cls_name(cls), "word": gen.rot(wd, rng.randrange(len(wd)))})
+            ctx.guard(check_typing, {"cls": asm.cls_name(cls), "word": gen.rot(wd, rng.randrange(len(wd)))})
     # assemblies with rotated inputs
     for enz in asm.pick_enzymes(rng, ctx.budget(80, 3000)):
         g = asm.gen_wellformed(rng, enz)
@@ -96,7 +96,7 @@ def run(ctx):
         case, info = g
         case["rv"] = rng.randrange(len(case["vector"]["word"]))
         case["rm"] = [rng.randrange(len(m["word"])) for m in case["mods"]]
-        check_assembly(ctx, case)
+        ctx.guard(check_assembly, case)
     # registry plasmids with their own class at the critical rotations
     import extract
     nreg = ctx.budget(12, 400)
@@ -135,6 +135,6 @@ def check_case(ctx, case):
         if a[:5] != b[:5]:
             ctx.fail("registry plasmid {}: rotation by {} changes the report".format(case["key"], case["rot"]), case)
     elif "vector" in case:
-        check_assembly(ctx, case)
+        ctx.guard(check_assembly, case)
     else:
-        check_typing(ctx, case)
+        ctx.guard(check_typing, case)
